@@ -386,7 +386,9 @@ def check_c08(ctx):
                    Batch(G_N3_ALL_ANY, ['sibling', 'subdir', 'remote'], modes, [sd['rot']], failsets=('none', '1'), reps=1,
                          entry='ExpandSpec:nobase', allfaults=True),
                    Batch(G_N3_ALL_ANY, ['sibling', 'subdir'], ['000'], [sd['rot']], reps=1, entry='ExpandSchema:typed,ExpandSchema:generic',
-                         caches=FOREIGN_CACHES, allfaults=True)]
+                         caches=FOREIGN_CACHES, allfaults=True),
+                   Batch(('random', 9, 3, 4000, True), ['sibling+subdir', 'parent+remote', 'otherdir+sibling'], modes, [sd['rot']], reps=1, spell='varied'),
+                   Batch(('random', 16, 4, 1000, True), ['sibling+subdir+parent'], modes, [sd['rot']], reps=1, names='special')]
         mcs = [(G_N3_ALL_ANY, False, False, 'any_strict_full'), (G_N3_ALL_ANY, True, False, 'any_cont_full'),
                (G_N3_ALL_ANY, False, True, 'any_strict_skip'), (G_N3_ALL_ANY, True, True, 'any_cont_skip')]
     else:
@@ -398,7 +400,9 @@ def check_c08(ctx):
                    # options without a RelativeBase; a caller cache that served another root before
                    Batch(G_N3_ALL_ANY, ['sibling'], ['000', '010'], [sd['rot']], reps=1, entry='ExpandSpec:nobase'),
                    Batch(G_N3_ALL_ANY, ['sibling'], ['000'], [sd['rot']], reps=1, entry='ExpandSchema:typed,ExpandSchema:generic',
-                         caches=FOREIGN_CACHES)]
+                         caches=FOREIGN_CACHES),
+                   # larger graphs (seeded random): several unresolvable and resolvable refs side by side, in other documents too
+                   Batch(('random', 9, 3, 400, True), ['sibling+subdir', 'parent+remote'], modes, [sd['rot']], reps=1, spell=sd['spell'])]
         mcs = [(G_N3_ALL_ANY, False, False, 'any_strict_full'), (G_N3_ALL_ANY, True, False, 'any_cont_full')]
     rep = run_batches(ctx, batches, preds, mcs, nontrivial=lambda o, v: v['nbad'] > 0 or len(o['failurl']) > 0,
                       sample=lambda o, v: v['nbad'] > 0)
